@@ -443,7 +443,10 @@ def main(argv):
     try:
         level = mod.run(ctx) or "model_checking"
         return ctx.finish(level)
-    except Infra as ex:
+    except BaseException as ex:
+        if not isinstance(ex, Infra):
+            import traceback
+            traceback.print_exc()
         log("INFRA ERROR:", ex)
         if os.environ.get("VERIF_KEEP") != "1":
             shutil.rmtree(ctx.work, ignore_errors=True)
